@@ -245,6 +245,9 @@ class Lit:
             if isinstance(n.func, ast.Name) and n.func.id == 'namedtuple' and n.func.id not in self.env and len(n.args) == 2 and not n.keywords:
                 import collections
                 return collections.namedtuple(*self._seq(n.args))      # standard-library primitive on literal arguments
+            if isinstance(n.func, ast.Attribute) and isinstance(n.func.value, ast.Name) and n.func.value.id == 'html' and 'html' not in self.env and n.func.attr in ('escape', 'unescape'):
+                import html as _html
+                return getattr(_html, n.func.attr)(*self._seq(n.args), **self._kw(n.keywords))
             if isinstance(n.func, ast.Attribute) and isinstance(n.func.value, ast.Name) and n.func.value.id == 'bisect' and 'bisect' not in self.env \
                and n.func.attr in ('bisect', 'bisect_left', 'bisect_right', 'insort', 'insort_left', 'insort_right'):
                 import bisect as _bisect
